@@ -146,6 +146,67 @@ class Result:
         self.ret, self.env, self.heap, self.events, self.live, self.returns = ret, env, heap, events, live, returns
 
 
+_NOCONT = {}
+
+
+def _without_continue(loop):
+    """the same loop with structured `continue` statements expressed as if/else:
+         if c: A; continue            if c: A
+         REST                   ==    else: REST
+    (a trailing `continue` is dropped).  Returns the loop itself when nothing changes or a `continue` remains in a
+    position this rewrite does not cover."""
+    if id(loop) in _NOCONT:
+        return _NOCONT[id(loop)][1]
+
+    def has_cont(stmts):
+        return any(isinstance(n, ast.Continue) for s_ in stmts for n in _walk_same_loop(s_))
+
+    def rewrite(stmts):
+        out = []
+        for i, st in enumerate(stmts):
+            if isinstance(st, ast.Continue):
+                return out                      # anything after it is dead
+            if isinstance(st, ast.If) and has_cont([st]):
+                body_c = bool(st.body) and isinstance(st.body[-1], ast.Continue)
+                else_c = bool(st.orelse) and isinstance(st.orelse[-1], ast.Continue)
+                rest = list(stmts[i + 1:])
+                if body_c and not has_cont(st.body[:-1]) and not has_cont(st.orelse[:-1] if else_c else st.orelse):
+                    body = rewrite(st.body[:-1]) or [ast.copy_location(ast.Pass(), st)]
+                    orelse = rewrite((st.orelse[:-1] if else_c else list(st.orelse) + rest))
+                    if else_c:
+                        # both arms continue: REST is dead
+                        pass
+                    new = ast.copy_location(ast.If(test=st.test, body=body, orelse=orelse), st)
+                    out.append(new)
+                    return out
+                if else_c and not has_cont(st.body) and not has_cont(st.orelse[:-1]):
+                    body = rewrite(list(st.body) + rest)
+                    orelse = rewrite(st.orelse[:-1]) or []
+                    new = ast.copy_location(ast.If(test=st.test, body=body or [ast.copy_location(ast.Pass(), st)], orelse=orelse), st)
+                    out.append(new)
+                    return out
+                raise ValueError('unstructured continue')
+            if has_cont([st]) and not isinstance(st, (ast.For, ast.While)):
+                raise ValueError('unstructured continue')
+            out.append(st)
+        return out
+    res = loop
+    try:
+        if has_cont(loop.body):
+            body = rewrite(list(loop.body)) or [ast.copy_location(ast.Pass(), loop)]
+            if isinstance(loop, ast.For):
+                res = ast.copy_location(ast.For(target=loop.target, iter=loop.iter, body=body, orelse=loop.orelse,
+                                                type_comment=None), loop)
+            else:
+                res = ast.copy_location(ast.While(test=loop.test, body=body, orelse=loop.orelse), loop)
+            ast.fix_missing_locations(res)
+    except ValueError:
+        res = loop
+    _NOCONT[id(loop)] = (loop, res)
+    _NOCONT[id(res)] = (res, res)
+    return res
+
+
 _ROT = {}
 
 
@@ -459,6 +520,10 @@ class Interp:
             return self.exec_block(st.orelse, fr)
         env_t, heap_t, live_t = self._branch(fr, c, st.body)
         env_e, heap_e, live_e = self._branch(fr, T.mk_not(c), st.orelse)
+        return self._join(fr, c, (env_t, heap_t, live_t), (env_e, heap_e, live_e))
+
+    def _join(self, fr, c, then, other):
+        (env_t, heap_t, live_t), (env_e, heap_e, live_e) = then, other
         if live_t.key == FALSE.key and live_e.key == FALSE.key:
             return FALSE
         if live_t.key == FALSE.key:
@@ -525,6 +590,28 @@ class Interp:
                 out.add(actual.id)
         return out
 
+    def _row_views(self, st):
+        """loop target names that are views of the rows of a local array and are stored into in the body:
+        {row name: array name}"""
+        it, tgt = st.iter, st.target
+        row = owner = None
+        if isinstance(it, ast.Call) and isinstance(it.func, ast.Name) and it.func.id == 'enumerate' and len(it.args) == 1 \
+                and not it.keywords and isinstance(it.args[0], ast.Name) and isinstance(tgt, ast.Tuple) and len(tgt.elts) == 2 \
+                and isinstance(tgt.elts[1], ast.Name):
+            row, owner = tgt.elts[1].id, it.args[0].id
+        elif isinstance(it, ast.Name) and isinstance(tgt, ast.Name):
+            row, owner = tgt.id, it.id
+        if row is None or row == owner:
+            return {}
+        stores = rebinds = 0
+        for b in st.body:
+            for n in ast.walk(b):
+                if isinstance(n, ast.Subscript) and isinstance(n.ctx, ast.Store) and isinstance(n.value, ast.Name) and n.value.id == row:
+                    stores += 1
+                if isinstance(n, ast.Name) and isinstance(n.ctx, ast.Store) and n.id in (row, owner):
+                    rebinds += 1
+        return {row: owner} if stores and not rebinds else {}
+
     def _summaries(self):
         s_ = getattr(self.prog, '_effect_summaries', None)
         if s_ is None:
@@ -538,6 +625,11 @@ class Interp:
         lid = f'L{getattr(st, "lineno", 0)}'
         assigned = self._assigned_names(st.body)
         info = {'id': lid, 'kind': kind, 'node': st}
+        views = self._row_views(st) if kind == 'for' else {}
+        if views:
+            # for i, row in enumerate(X): row[...] = v   writes through the row view into X
+            info['views'] = views
+            assigned = set(assigned) | set(views.values())
         # name-independent identity of a loop-carried local: its value at loop entry (+ ordinal on ties), so that
         # renaming the local does not change terms; the readable name is kept in LOOPVAR_LABELS for reports
         canon = {}
@@ -624,7 +716,12 @@ class Interp:
         return TRUE
 
     def st_For(self, st, fr):
+        st = _without_continue(st)
         it = self.ev(st.iter, fr)
+        from .sva_expr import small_range_items
+        rng_items = small_range_items(it)
+        if rng_items is not None:
+            it = T.mk_tuple(rng_items)
         ia = it.single_atom()
         if ia is not None and ia.kind == 'ite' and not st.orelse:
             # for x in (A if c else B)  ==  if c: for x in A   else: for x in B
@@ -634,6 +731,12 @@ class Interp:
         if ia is not None and ia.kind in ('list', 'tuple') and len(ia.args) <= 4 and not st.orelse and \
                 not any(isinstance(n, (ast.Break, ast.Continue)) for b_ in st.body for n in ast.walk(b_)):
             return self._for_unrolled(st, fr, list(ia.args))
+        # for x in (a, b, ...): if test(x): S; break  [else: E]   ==   if test(a): S(a) elif test(b): S(b) ... else: E
+        if ia is not None and ia.kind in ('list', 'tuple') and len(ia.args) <= 12 and len(st.body) == 1 and \
+                isinstance(st.body[0], ast.If) and not st.body[0].orelse and isinstance(st.body[0].body[-1], ast.Break):
+            inner = st.body[0].body[:-1]
+            if not any(isinstance(n, (ast.Break, ast.Continue)) for b_ in inner for n in _walk_same_loop(b_)):
+                return self._for_first_match(st, fr, list(ia.args), st.body[0].test, inner, 0)
         # for k, v in {literal dictionary}.items() / for k in {literal}: one iteration per known entry
         if ia is not None and ia.kind == 'call' and ia.args[0] in ('items', 'keys', 'values') and ia.args[1] and not st.orelse and \
                 not any(isinstance(n, (ast.Break, ast.Continue)) for b_ in st.body for n in ast.walk(b_)):
@@ -648,6 +751,26 @@ class Interp:
                     items = [v_ for _, v_ in da.args]
                 return self._for_unrolled(st, fr, items)
         return self._loop(st, fr, 'for')
+
+    def _for_first_match(self, st, fr, items, test, inner, i):
+        if i == len(items):
+            return self.exec_block(st.orelse, fr) if st.orelse else TRUE
+        self.assign(st.target, items[i], fr, st, quiet=True)
+        c = self.ev_cond(test, fr)
+        if c.key == TRUE.key:
+            return self.exec_block(inner, fr)
+        if c.key == FALSE.key:
+            return self._for_first_match(st, fr, items, test, inner, i + 1)
+        then = self._branch(fr, c, inner)
+        env0, heap0 = fr.env, self.heap
+        fr.env, self.heap = dict(env0), dict(heap0)
+        n0 = len(self.pc)
+        self.pc.append(T.mk_not(c))
+        live_e = self._for_first_match(st, fr, items, test, inner, i + 1)
+        del self.pc[n0:]
+        other = (fr.env, self.heap, live_e)
+        fr.env, self.heap = env0, heap0
+        return self._join(fr, c, then, other)
 
     def _for_unrolled(self, st, fr, items):
         live = TRUE
@@ -681,6 +804,7 @@ class Interp:
         return T.mk_or([T.mk_and([c, live_t]), T.mk_and([T.mk_not(c), live_e])])
 
     def st_While(self, st, fr):
+        st = _without_continue(st)
         rot = _rotate_loop_and_a_half(st)
         if rot is not None:
             pre, loop, post = rot
@@ -887,6 +1011,27 @@ class Interp:
                 self.emit('store', st, fr, target='attr', base=base, name=tgt.attr, value=v, aug=aug,
                           rhs=rhs, old=old, base_node=tgt.value)
         elif isinstance(tgt, ast.Subscript):
+            view = None
+            if isinstance(tgt.value, ast.Name):
+                for info in reversed(self.loops):
+                    if tgt.value.id in info.get('views', {}) and 'index' in info:
+                        view = (info['views'][tgt.value.id], info['index'])
+                        break
+            if view is not None and view[0] in fr.env:
+                # a store into a row view is a store into the array the row belongs to
+                owner = ast.copy_location(ast.Name(id=view[0], ctx=ast.Load()), tgt.value)
+                inner = self.ev_index(tgt.slice, fr)
+                ia_ = inner.single_atom()
+                parts = list(ia_.args) if ia_ is not None and ia_.kind == 'tuple' else [inner]
+                base = fr.env[view[0]]
+                idx = T._norm_index(T.mk_tuple([view[1]] + parts))
+                if aug is not None and old is not None:
+                    old = T.mk_sub(base, idx)
+                if not quiet:
+                    self.emit('store', st, fr, target='sub', base=base, key=idx, value=v, aug=aug, rhs=rhs,
+                              old=old, base_node=owner)
+                fr.env[view[0]] = T.mk_store(base, idx, v)
+                return
             base = self.ev(tgt.value, fr)
             idx = T._norm_index(self.ev_index(tgt.slice, fr))
             if not quiet:
